@@ -559,6 +559,77 @@ pub fn run(tier: Tier) -> i32 {
         }
         let _ = std::fs::remove_dir_all(&root);
     }
+    // a file larger than 1 MiB is included like any other (pasted text = the same lines)
+    let mut n_special = 0u64;
+    {
+        let root = scratch.path.join("bigtree");
+        let mut files: BTreeMap<String, String> = BTreeMap::new();
+        let mut big = String::with_capacity(1_700_000);
+        let mut i = 0u32;
+        while big.len() < 1_600_000 {
+            big.push_str(&format!(".db {}, {}, {}, {}\n", i % 251, (i / 3) % 251, 7, (i * 5) % 251));
+            i += 1;
+        }
+        big.push_str("big_end_l: .dw big_end_l & 0xffff\n");
+        let main = ".include \"big.inc\"\nldi r16, low(big_end_l)\n.dw big_end_l >> 16\n";
+        write_file(&root.join("src/main.asm"), main, &mut files, &root);
+        write_file(&root.join("src/big.inc"), &big, &mut files, &root);
+        let pasted = format!("{}ldi r16, low(big_end_l)\n.dw big_end_l >> 16\n", big);
+        let o = sut::build_file(root.join("src/main.asm"), BTreeSet::new());
+        let r = sut::build_str(&pasted);
+        evals.fetch_add(1, Ordering::Relaxed);
+        n_special += 1;
+        let bad = match (&o, &r) {
+            (Outcome::Ok(a), Outcome::Ok(b)) if a.code == b.code => None,
+            (Outcome::Ok(a), Outcome::Ok(b)) => Some(format!("the tree assembles to {} bytes but the pasted text to {} bytes", a.code.len(), b.code.len())),
+            (other, Outcome::Ok(_)) => Some(format!("the pasted text builds but the tree: {}", other.brief())),
+            (_, other) => machinery_fail(&format!("the pasted text of the large-include tree does not build: {}", other.brief())),
+        };
+        if let Some(what) = bad {
+            rep.violation("C11/differs-from-pasted/tree=include-file-larger-than-1-MiB", || what, || json!({"kind": "file_tree", "files": {"src/main.asm": main, "src/big.inc": format!("{} ... ({} bytes, generated: `.db a, b, 7, c` lines, then `big_end_l: .dw big_end_l & 0xffff`)", &big[..200], big.len())}, "main": "src/main.asm", "caller_paths": [], "observed": o.to_json()}));
+        }
+        let _ = std::fs::remove_dir_all(&root);
+    }
+    // relative paths that climb: the main file named by a bare or short relative path (the current
+    // directory is process-global, so these run one after the other)
+    {
+        let old = std::env::current_dir().ok();
+        let cases: Vec<(&str, &str, &str, &str)> = vec![
+            // (name, current directory, main file as given, .includepath operand)
+            ("bare-main-and-includepath-dot-dot", "proj/src", "main.asm", "../inc"),
+            ("short-relative-main-and-includepath-dot-dot", "proj", "src/main.asm", "../inc"),
+            ("bare-main-and-includepath-two-levels-up", "proj/src", "main.asm", "../../proj/inc"),
+            ("dotted-main-and-includepath-dot-dot", "proj/src", "./main.asm", "../inc"),
+            ("main-through-dot-dot-and-includepath", "proj/inc", "../src/main.asm", "../inc"),
+        ];
+        for (ci, (name, cwd, main_given, ip)) in cases.iter().enumerate() {
+            let root = scratch.path.join(format!("climb{}", ci));
+            let mut files: BTreeMap<String, String> = BTreeMap::new();
+            let main_text = format!(".includepath \"{}\"\n.include \"defs.inc\"\nldi r16, CLIMB_K\n", ip);
+            write_file(&root.join("proj/src/main.asm"), &main_text, &mut files, &root);
+            write_file(&root.join("proj/inc/defs.inc"), ".equ CLIMB_K = 0x2a\n", &mut files, &root);
+            if std::env::set_current_dir(root.join(cwd)).is_err() {
+                continue;
+            }
+            let o = sut::build_file(PathBuf::from(main_given), BTreeSet::new());
+            if let Some(od) = &old {
+                let _ = std::env::set_current_dir(od);
+            }
+            evals.fetch_add(1, Ordering::Relaxed);
+            n_special += 1;
+            let want = sut::build_str(".equ CLIMB_K = 0x2a\nldi r16, CLIMB_K\n");
+            let same = matches!((&o, &want), (Outcome::Ok(a), Outcome::Ok(b)) if a.code == b.code);
+            if !same {
+                rep.violation(&format!("C11/rejected/tree={}", name), || format!("current directory {}, main file given as `{}`, `.includepath \"{}\"` (relative to the file with the directive): {}", cwd, main_given, ip, o.brief()), || {
+                    json!({"kind": "file_tree", "files": files, "main": main_given, "current_directory": cwd, "caller_paths": [], "pasted_program": ".equ CLIMB_K = 0x2a\nldi r16, CLIMB_K\n", "observed": o.to_json()})
+                });
+            }
+            let _ = std::fs::remove_dir_all(&root);
+        }
+        if let Some(od) = &old {
+            let _ = std::env::set_current_dir(od);
+        }
+    }
     let distinct = outcomes.lock().unwrap().len();
     rep.guard(items.len() > 2000, "fewer than 2000 configurations");
     rep.guard(loc_use.lock().unwrap().len() == 8, "not every location kind was used");
@@ -573,6 +644,7 @@ pub fn run(tier: Tier) -> i32 {
         "exhaustive": true,
         "cwd_relative_cases": cwd_cases,
         "hand_written_trees": n_trees,
+        "large_include_and_climbing_relative_path_trees": n_special,
         "location_kind_use": *loc_use.lock().unwrap(),
         "distinct_observed_outcomes": distinct,
         "outcomes": {"ok": n_ok.load(Ordering::Relaxed), "err": n_err.load(Ordering::Relaxed)},
